@@ -219,6 +219,7 @@ theorem stepCore_good {w : MWorld} (g : Good w) (op : MOp) :
       | .mpClear => let (m, ops) := w.multi.clear; ({ w with multi := m }, ops)
       | .mpSuspend out => let (m, ops) := w.multi.suspend out w.now; ({ w with multi := m }, ops)
       | .align bottom => ({ w with multi := { w.multi with alignment := if bottom then .bottom else .top } }, [])
+      | .retarget => ({ w with multi := w.multi.retarget w.now }, [])
       | .bar k op => w.barStep k op).1 := by
   cases op with
   | adv dt => exact Good.congr g rfl rfl
@@ -287,6 +288,10 @@ theorem stepCore_good {w : MWorld} (g : Good w) (op : MOp) :
   | mpClear => exact Good.withMulti g _ (clear_wf _ g.wf) (clear_length _)
   | mpSuspend out => exact Good.withMulti g _ (suspend_wf _ g.wf _ _) (suspend_length _ _ _)
   | align bottom => exact Good.withMulti g _ (WF.of_same (m := w.multi) ⟨rfl, rfl, rfl⟩ g.wf) rfl
+  | retarget =>
+    refine Good.withMulti g _ (WF.of_same (m := w.multi) ?_ g.wf) ?_
+    · unfold Multi.retarget; split <;> exact ⟨rfl, rfl, rfl⟩
+    · unfold Multi.retarget; split <;> rfl
   | bar k op => exact barStep_good g k op
 
 /-- **every operation of the MultiProgress world keeps the slot partition and the validity of the
